@@ -4,6 +4,7 @@ against the Lean model (pkdriver) and against the independent spec (pyspec)."""
 from __future__ import annotations
 
 import random
+import zlib
 from itertools import combinations
 
 import impl
@@ -145,8 +146,13 @@ def impl_eval(tn, hole, board):
 
 def impl_hand(tn, cards):
     cls = impl.HAND_TYPES[tn]
+    # the documented CardsLike shapes: text, tuple, list, one-shot iterator, generator (chosen from the cards
+    # alone, so that a replay makes the same choice)
+    text = ''.join(repr(c) for c in cards)
+    k = zlib.crc32((tn + text).encode()) % 5
+    arg = [list(cards), tuple(cards), iter(list(cards)), (c for c in list(cards)), text if cards else ()][k]
     try:
-        h = cls(cards)
+        h = cls(arg)
     except ValueError:
         return 'H !ValueError', None
     except KeyError:
